@@ -384,54 +384,61 @@ def r14_6(prog: Program, rep):
     reachable any more: the caller falls back to graph traversal.  And the two providers mean the same thing by
     'reachable objects' (the fallback walks the ancestry like a bitmap does)."""
     m = prog.module(OS_PY)
-    f = m.funcs.get("BitmapReachability._combine_commit_bitmaps")
-    if f is None:
+    f0 = m.funcs.get("BitmapReachability._combine_commit_bitmaps")
+    if f0 is None:
         raise AnalysisError("BitmapReachability._combine_commit_bitmaps not found")
-    g = cfg_of(prog, f)
-    good_rets = [i for i, n in g.nodes.items() if n.kind == "stmt" and isinstance(n.ast, ast.Return) and n.ast.value is not None
-                 and not (isinstance(n.ast.value, ast.Constant) and n.ast.value.value is None)]
-    if not good_rets:
-        raise AnalysisError("_combine_commit_bitmaps: no result return found")
+    # the function itself and the methods of the class it hands part of the work to (`self._helper(...)`): in each of them an
+    # incomplete lookup must end in `return None` (the fallback), never in a value
+    helpers = [m.funcs[f"BitmapReachability.{c.func.attr}"] for c in ast.walk(f0.node) if isinstance(c, ast.Call) and isinstance(c.func, ast.Attribute)
+               and isinstance(c.func.value, ast.Name) and c.func.value.id == "self" and f"BitmapReachability.{c.func.attr}" in m.funcs]
     n = 0
-    for a in [x for x in ast.walk(f.node) if isinstance(x, ast.Assign) and isinstance(x.value, ast.Call) and callee_name(x.value) == "find_commit_bitmaps"
-              and isinstance(x.targets[0], ast.Name) and x.value.args and isinstance(x.value.args[0], ast.Name)]:
-        v, s_ = a.targets[0].id, a.value.args[0].id
-        tests = []
-        for i, nd in g.nodes.items():
-            if nd.kind != "test" or not isinstance(nd.ast, ast.Compare) or len(nd.ast.ops) != 1:
-                continue
-            l, r = norm(nd.ast.left), norm(nd.ast.comparators[0])
-            if {l, r} != {f"len({v})", f"len({s_})"}:
-                continue
-            op = nd.ast.ops[0]
-            if isinstance(op, ast.Eq):
-                tests.append((i, "false"))
-            elif isinstance(op, ast.NotEq):
-                tests.append((i, "true"))
-            elif isinstance(op, (ast.Lt, ast.LtE)):
-                # canonical form: smaller on the left; `len(found) < len(asked)` is the incomplete case
-                tests.append((i, "true" if l == f"len({v})" else "false"))
-        n += 1
-        bad = []
-        for i, lab in tests:
-            start = [b for b, l_ in g.succ[i] if l_ == lab]
-            r_ = reach(g, start, include_srcs=True)
-            bad += [x for x in good_rets if x in r_]
-        rep.ob("R14.6", m.rel, f.qual, f"when fewer bitmaps than `{s_}` were found no result is returned (fallback)", bool(tests) and not bad,
-               ("no completeness test of the lookup" if not tests else "a result is still returned when the lookup was incomplete") +
-               ": part of the request (e.g. the whole exclude set) is silently left out, so the answer depends on which commits happen to have a bitmap",
-               a.lineno)
-    for a in [x for x in ast.walk(f.node) if isinstance(x, ast.Assign) and isinstance(x.value, ast.Call) and callee_name(x.value) == "get_bitmap"
-              and isinstance(x.targets[0], ast.Name)]:
-        v = a.targets[0].id
-        tests = [i for i, nd in g.nodes.items() if nd.kind == "test" and norm(nd.ast) == f"{v} is None"]
-        n += 1
-        bad = []
-        for i in tests:
-            r_ = reach(g, [b for b, l_ in g.succ[i] if l_ == "true"], include_srcs=True)
-            bad += [x for x in good_rets if x in r_]
-        rep.ob("R14.6", m.rel, f.qual, f"an unresolvable bitmap (`{v} is None`) ends in the fallback, never in a partial result", bool(tests) and not bad,
-               "the loop is left (break/continue) and a result built from the bitmaps seen so far is returned", a.lineno)
+    for f in [f0] + helpers:
+        g = cfg_of(prog, f)
+        good_rets = [i for i, n_ in g.nodes.items() if n_.kind == "stmt" and isinstance(n_.ast, ast.Return) and n_.ast.value is not None
+                     and not (isinstance(n_.ast.value, ast.Constant) and n_.ast.value.value is None)]
+        if not good_rets:
+            if f is f0:
+                raise AnalysisError("_combine_commit_bitmaps: no result return found")
+            continue
+        for a in [x for x in ast.walk(f.node) if isinstance(x, ast.Assign) and isinstance(x.value, ast.Call) and callee_name(x.value) == "find_commit_bitmaps"
+                  and isinstance(x.targets[0], ast.Name) and x.value.args and isinstance(x.value.args[0], ast.Name)]:
+            v, s_ = a.targets[0].id, a.value.args[0].id
+            tests = []
+            for i, nd in g.nodes.items():
+                if nd.kind != "test" or not isinstance(nd.ast, ast.Compare) or len(nd.ast.ops) != 1:
+                    continue
+                l, r = norm(nd.ast.left), norm(nd.ast.comparators[0])
+                if {l, r} != {f"len({v})", f"len({s_})"}:
+                    continue
+                op = nd.ast.ops[0]
+                if isinstance(op, ast.Eq):
+                    tests.append((i, "false"))
+                elif isinstance(op, ast.NotEq):
+                    tests.append((i, "true"))
+                elif isinstance(op, (ast.Lt, ast.LtE)):
+                    # canonical form: smaller on the left; `len(found) < len(asked)` is the incomplete case
+                    tests.append((i, "true" if l == f"len({v})" else "false"))
+            n += 1
+            bad = []
+            for i, lab in tests:
+                start = [b for b, l_ in g.succ[i] if l_ == lab]
+                r_ = reach(g, start, include_srcs=True)
+                bad += [x for x in good_rets if x in r_]
+            rep.ob("R14.6", m.rel, f.qual, f"when fewer bitmaps than `{s_}` were found no result is returned (fallback)", bool(tests) and not bad,
+                   ("no completeness test of the lookup" if not tests else "a result is still returned when the lookup was incomplete") +
+                   ": part of the request (e.g. the whole exclude set) is silently left out, so the answer depends on which commits happen to have a bitmap",
+                   a.lineno)
+        for a in [x for x in ast.walk(f.node) if isinstance(x, ast.Assign) and isinstance(x.value, ast.Call) and callee_name(x.value) == "get_bitmap"
+                  and isinstance(x.targets[0], ast.Name)]:
+            v = a.targets[0].id
+            tests = [i for i, nd in g.nodes.items() if nd.kind == "test" and norm(nd.ast) == f"{v} is None"]
+            n += 1
+            bad = []
+            for i in tests:
+                r_ = reach(g, [b for b, l_ in g.succ[i] if l_ == "true"], include_srcs=True)
+                bad += [x for x in good_rets if x in r_]
+            rep.ob("R14.6", m.rel, f.qual, f"an unresolvable bitmap (`{v} is None`) ends in the fallback, never in a partial result", bool(tests) and not bad,
+                   "the loop is left (break/continue) and a result built from the bitmaps seen so far is returned", a.lineno)
     if n < 3:
         raise AnalysisError(f"_combine_commit_bitmaps: expected >= 3 bitmap lookups, found {n}")
     fb = m.funcs.get("GraphTraversalReachability.get_reachable_objects")
@@ -454,25 +461,29 @@ def r14_7(prog: Program, rep):
     f = m.funcs.get("BitmapReachability._combine_commit_bitmaps")
     if f is None:
         raise AnalysisError("BitmapReachability._combine_commit_bitmaps not found")
-    lookups = [x for x in ast.walk(f.node) if isinstance(x, ast.Assign) and isinstance(x.value, ast.Call) and callee_name(x.value) == "find_commit_bitmaps"
-               and isinstance(x.targets[0], ast.Name) and len(x.value.args) >= 2]
-    packvars = {t.id for x in ast.walk(f.node) if isinstance(x, ast.Assign) for t in [x.targets[0]] if isinstance(t, ast.Name) and "pack" in t.id and "bitmap" not in t.id}
+    helpers7 = [m.funcs[f"BitmapReachability.{c.func.attr}"] for c in ast.walk(f.node) if isinstance(c, ast.Call) and isinstance(c.func, ast.Attribute)
+                and isinstance(c.func.value, ast.Name) and c.func.value.id == "self" and f"BitmapReachability.{c.func.attr}" in m.funcs]
     n = 0
-    for lk in lookups:
-        res, scope_ = lk.targets[0].id, lk.value.args[1]
-        restricted = isinstance(scope_, ast.List) and len(scope_.elts) == 1 and isinstance(scope_.elts[0], ast.Name) and scope_.elts[0].id in packvars
-        # loops consuming this lookup
-        for lp in [x for x in ast.walk(f.node) if isinstance(x, ast.For) and any(isinstance(y, ast.Name) and y.id == res for y in ast.walk(x))]:
-            combines = [b for b in ast.walk(lp) if isinstance(b, (ast.BinOp, ast.AugAssign)) and isinstance(b.op, (ast.BitOr, ast.Sub, ast.BitAnd, ast.BitXor)) and "bitmap" in norm(b)]
-            if not combines:
-                continue
-            n += 1
-            guarded = any(isinstance(t, ast.Compare) and len(t.ops) == 1 and isinstance(t.ops[0], (ast.Eq, ast.NotEq, ast.Is, ast.IsNot))
-                          and {type(t.left), type(t.comparators[0])} == {ast.Name} and {t.left.id, t.comparators[0].id} & packvars
-                          and "pack" in t.left.id and "pack" in t.comparators[0].id for t in ast.walk(lp))
-            rep.ob("R14.7", m.rel, f.qual, f"bitmaps found by `{norm(lk.value, 60)}` are combined only within one pack", restricted or guarded,
-                   "the lookup spans several packs and nothing compares the pack before the bitmaps are combined: bit positions of one pack's index "
-                   "are applied to another pack's bitmap - a wrong object set", lk.lineno)
+    for f in [f] + helpers7:
+      lookups = [x for x in ast.walk(f.node) if isinstance(x, ast.Assign) and isinstance(x.value, ast.Call) and callee_name(x.value) == "find_commit_bitmaps"
+                 and isinstance(x.targets[0], ast.Name) and len(x.value.args) >= 2]
+      packvars = {t.id for x in ast.walk(f.node) if isinstance(x, ast.Assign) for t in [x.targets[0]] if isinstance(t, ast.Name) and "pack" in t.id and "bitmap" not in t.id}
+      packvars |= {a_.arg for a_ in f.node.args.args + f.node.args.kwonlyargs if "pack" in a_.arg and "bitmap" not in a_.arg}
+      for lk in lookups:
+          res, scope_ = lk.targets[0].id, lk.value.args[1]
+          restricted = isinstance(scope_, ast.List) and len(scope_.elts) == 1 and isinstance(scope_.elts[0], ast.Name) and scope_.elts[0].id in packvars
+          # loops consuming this lookup
+          for lp in [x for x in ast.walk(f.node) if isinstance(x, ast.For) and any(isinstance(y, ast.Name) and y.id == res for y in ast.walk(x))]:
+              combines = [b for b in ast.walk(lp) if isinstance(b, (ast.BinOp, ast.AugAssign)) and isinstance(b.op, (ast.BitOr, ast.Sub, ast.BitAnd, ast.BitXor)) and "bitmap" in norm(b)]
+              if not combines:
+                  continue
+              n += 1
+              guarded = any(isinstance(t, ast.Compare) and len(t.ops) == 1 and isinstance(t.ops[0], (ast.Eq, ast.NotEq, ast.Is, ast.IsNot))
+                            and {type(t.left), type(t.comparators[0])} == {ast.Name} and {t.left.id, t.comparators[0].id} & packvars
+                            and "pack" in t.left.id and "pack" in t.comparators[0].id for t in ast.walk(lp))
+              rep.ob("R14.7", m.rel, f.qual, f"bitmaps found by `{norm(lk.value, 60)}` are combined only within one pack", restricted or guarded,
+                     "the lookup spans several packs and nothing compares the pack before the bitmaps are combined: bit positions of one pack's index "
+                     "are applied to another pack's bitmap - a wrong object set", lk.lineno)
     if n < 2:
         raise AnalysisError(f"_combine_commit_bitmaps: expected >= 2 bitmap combination loops, found {n}")
     gd = m.funcs.get("get_depth")
@@ -544,14 +555,27 @@ def r14_9(prog: Program, rep):
     if not heads_walks:
         raise AnalysisError("get_reachable_commits: the walk from `heads` (_collect_ancestors(store, heads, stop, ..)) not found")
     ok = True
+    from sa.flow import reach as _reach9
     for i, c in heads_walks:
         stop = c.args[2]
-        if not isinstance(stop, ast.Name):
-            ok = False
+        stop_names = [x.id for x in ast.walk(stop) if isinstance(x, ast.Name)]
+        # a walk that only runs when the exclude set is EMPTY (guard clause `if not exclude: return walk(heads, exclude)`) has nothing to close
+        def truthy_edge(a_, b_, l_, names=tuple(stop_names)):
+            n_ = g.nodes[a_]
+            if n_.kind != "test":
+                return True
+            t_ = n_.ast
+            # forbid the edges on which the set is EMPTY: what stays reachable runs with a non-empty exclude set
+            if isinstance(t_, ast.Name) and t_.id in names:
+                return l_ != "false"
+            if isinstance(t_, ast.UnaryOp) and isinstance(t_.op, ast.Not) and isinstance(t_.operand, ast.Name) and t_.operand.id in names:
+                return l_ != "true"
+            return True
+        if stop_names and i not in _reach9(g, [g.entry], include_srcs=True, edge_ok=truthy_edge):
             continue
+        derived = any(isinstance(cc, ast.Call) and callee_name(cc) == "_collect_ancestors" for cc in ast.walk(stop))
         # some reaching definition of the stop set is derived from the result of a walk over the excluded commits
-        derived = False
-        for d in rd[i].get(stop.id, ()):
+        for d in [d_ for nm in stop_names for d_ in rd[i].get(nm, ())]:
             a = g.nodes[d].ast
             val = getattr(a, "value", None)
             if val is None:
